@@ -32,4 +32,7 @@ def jobs(tier, seed):
                 ld.append(lbc.job("c01len", "lbc_sound_finish_symbol_lengths", 3, key, h, api=0, finish=1, ln=ln, rnd=[rng.randrange(r) for _ in range(r)], prop="C01", timeout=400))
     # the dense solver used by ML decoding, against exact bit-matrix algebra (C18's solver contract, re-run here: system sizes at the 32/64-column word boundaries)
     sol = [j for j in c18.jobs(tier, seed) if j.name.startswith(("solver.lower_triangular.32x31", "solver.upper_triangular.32x31", "solver.lower_triangular.33x32", "solver.upper_triangular.33x32"))]
-    return js + lbc.dedupe(ld) + sol
+    # the GF multiply-accumulate kernel contracts that stand in for the kernels inside the RS decode cores (C13's contracts, a slice re-run here: sizes with a
+    # 16-byte block part and a tail, where a slip in the block/tail hand-over shows)
+    ker = c02.kernel_jobs(tier, seed, sizes=(15, 17, 24, 33) if tier == "quick" else tuple(range(0, 65)))
+    return js + lbc.dedupe(ld) + sol + ker
